@@ -9,6 +9,7 @@ import Mrpro.Model.Signal
 import Mrpro.Model.Resample
 import Mrpro.Model.Rotation
 import Mrpro.Model.Load
+import Mrpro.Model.KDataOps
 open Lean M M.Proto
 
 def getTrajComp (j : Json) (k : String) : Except String TrajComp := do
@@ -165,6 +166,11 @@ def rotFn (j : Json) : Except String (List Float) := do
   | "fromRotvec" => let v := ← getFloats j "v"; pure (qList (F.fromRotvec ⟨v.getD 0 0, v.getD 1 0, v.getD 2 0⟩))
   | "toRotvec" => let o := F.toRotvec (qOf (← getFloats j "q")); pure [o.x0, o.x1, o.x2]
   | _ => throw s!"rot fn {fn}"
+
+def gridJson (g : Grid Nat) : Json :=
+  Json.arr (List.map (fun (o : List (List Nat)) => Json.arr (List.map natsJson o).toArray) g).toArray
+def natssOf (j : Json) (k : String) : Except String (List (List Nat)) := do
+  let a ← j.getObjValAs? (Array (Array Nat)) k; pure (a.toList.map (·.toList))
 
 /-- one structural linear operator (forward or adjoint code path) on exact complex data -/
 def linop (j : Json) (x : Tensor CRat) : Except String (Except ErrKind (Tensor CRat)) := do
@@ -337,6 +343,25 @@ def handle (j : Json) : Except String Json := do
   | "kfreq" =>
       let n ← getNat j "n"; let c ← getInt j "center"; let rev ← getBool j "reversed"
       pure (Json.mkObj [("k", intsJson ((List.range n).map (kfreq n c rev)))])
+  | "kdata_ops" =>
+      let g0 ← j.getObjValAs? (Array (Array (Array Nat))) "grid"
+      let mut g : Grid Nat := g0.toList.map (fun o => o.toList.map (·.toList))
+      let ops ← j.getObjValAs? (Array Json) "ops"
+      for o in ops do
+        let t ← getStr o "t"
+        match t with
+        | "splitK1" => g := Grid.splitK1 g (← natssOf o "idx")
+        | "splitK2" => g := Grid.splitK2 g (← natssOf o "idx")
+        | "select" => g := Grid.selectOther g (← getNats o "labelOf") (← getNats o "subset")
+        | "merge" => g := Grid.mergeK2K1 g
+        | _ => throw s!"kdata op {t}"
+      pure (Json.mkObj [("grid", gridJson g)])
+  | "split_idx" =>
+      let n ← getNat j "n"; let size ← getNat j "size"; let ov ← getNat j "overlap"; let cyc ← getBool j "cyclic"
+      pure (Json.mkObj [("idx", Json.arr ((Grid.splitIdx (List.range n) size ov cyc).map natsJson).toArray)])
+  | "split_label" =>
+      let no ← getNat j "n_other"; let k2 ← getNat j "k2"; let k1 ← getNat j "k1"
+      pure (Json.mkObj [("grid", gridJson (Grid.splitLabel no (← natssOf j "idx") k2 k1))])
   | "norm_dims" =>
       let ndim ← getNat j "ndim"; let dims ← getInts j "dims"
       pure (match dims.mapM (normIndex ndim) with
